@@ -467,15 +467,35 @@ type Model interface {
 	Line(f []string) string
 }
 
+// Comment lines (`#…`) are skipped; `#@ <tag>` makes the next line also count under `<tag>:<result kind>`,
+// and every `view` line under `view:<result kind>` (family-wise coverage counters of the oracle).
 func CompareHistory(impl *Session, model Model, hist []string, checked map[string]int) (fails []Failure, lines int) {
+	tag := ""
 	for k, l := range hist {
+		if l == "" || strings.HasPrefix(l, "#") {
+			if strings.HasPrefix(l, "#@ ") {
+				tag = l[3:]
+			}
+			continue
+		}
 		f := strings.Split(l, " ")
 		got := Canon(impl.Line(f))
 		want := model.Line(f)
 		lines++
 		if checked != nil {
 			checked[f[0]]++
+			kind := got
+			if i := strings.IndexByte(got, ' '); i >= 0 {
+				kind = got[:i]
+			}
+			if f[0] == "view" {
+				checked["view:"+kind]++
+			}
+			if tag != "" {
+				checked[tag+":"+kind]++
+			}
 		}
+		tag = ""
 		if want == "skip" || got == want {
 			continue
 		}
@@ -510,6 +530,7 @@ func Oracle(w *bufio.Writer, n, shard, nshards int) {
 	var buf bytes.Buffer
 	bw := bufio.NewWriter(&buf)
 	g := NewHistGen(hx.NewRand(OracleSeed(shard)), bw)
+	g.Ops = append(g.Ops, NestedViewOps()...)
 	impl := NewSession()
 	model := NewRef()
 	nfail, lines, checked := 0, 0, map[string]int{}
@@ -533,6 +554,12 @@ func Oracle(w *bufio.Writer, n, shard, nshards int) {
 	var cs []string
 	for k, v := range checked {
 		cs = append(cs, fmt.Sprintf("%s=%d", k, v))
+	}
+	sort.Strings(cs)
+	for k, v := range g.Count {
+		if strings.HasPrefix(k, "nest") {
+			cs = append(cs, fmt.Sprintf("gen:%s=%d", k, v))
+		}
 	}
 	sort.Strings(cs)
 	fmt.Fprintf(w, "oracle histories=%d cases=%d fails=%d %s\n", hists, lines, nfail, strings.Join(cs, " "))
